@@ -131,6 +131,7 @@ namespace {
             break;
           case 14:
             op["k"] = J(plan.chance(600) ? "use" : "calluse");
+            op["nested"] = J(plan.chance(500));
             break;
           default:
             op["k"] = J("loopfn");
@@ -153,7 +154,9 @@ namespace {
       const J &ops = plan.at("ops");
       const std::string dir = run_dir() + "/c14/";
       ::mkdir(dir.c_str(), 0777);
-      write_file(dir + "lib.chai", "bump();\ndef from_lib(x) { x + 5000 }\n");
+      // in the middle of the file a harness hook runs: on some operations it creates a SECOND engine on
+      // the same thread and lets it use the same file, nested inside the first engine's use()
+      write_file(dir + "lib.chai", "bump();\nnested_hook();\ndef from_lib(x) { x + 5000 }\n");
 
       Engine *eng[N_SLOTS] = {nullptr, nullptr, nullptr, nullptr, nullptr};
       GenModel model[N_SLOTS];
@@ -185,6 +188,8 @@ namespace {
       }
       std::vector<std::string> fail(static_cast<size_t>(T));
       std::vector<std::map<std::string, int64_t>> cnt(static_cast<size_t>(T));
+      std::vector<char> nested_armed(static_cast<size_t>(T), 0);
+      std::vector<std::string> nested_verdict(static_cast<size_t>(T));
 
       auto body = [&](int a) {
         auto bad = [&](size_t oi, const std::string &rule, const std::string &what) {
@@ -222,6 +227,27 @@ namespace {
                 }
                 auto bumps = m.bumps;
                 eng[s]->add(fun([bumps]() { bumps->fetch_add(1); }), "bump");
+                eng[s]->add(fun([&nested_armed, &nested_verdict, &cnt, dir]() {
+                              const int me = sim_self();
+                              if (me < 0 || !nested_armed[size_t(me)]) {
+                                return;
+                              }
+                              nested_armed[size_t(me)] = 0;
+                              // a fresh engine, used and destroyed inside the outer engine's use(): it must
+                              // behave like any fresh engine (evaluate the file once, see none of the outer state)
+                              int inner_bumps = 0;
+                              auto inner = make_engine({dir});
+                              inner->add(fun([&inner_bumps]() { ++inner_bumps; }), "bump");
+                              inner->add(fun([]() {}), "nested_hook");
+                              std::string v = eval_show(*inner, "use(\"lib.chai\"); from_lib(1)");
+                              std::string l = eval_show(*inner, "secret");
+                              std::string g = eval_show(*inner, "gl0");
+                              if (v != "=i:5001" || inner_bumps != 1 || l.rfind("!eval_error|Can not find object", 0) != 0 || g.rfind("!eval_error|Can not find object", 0) != 0) {
+                                nested_verdict[size_t(me)] = "nested engine: use+from_lib -> " + v + ", file evaluated " + std::to_string(inner_bumps) + " times, secret -> " + l + ", gl0 -> " + g;
+                              }
+                              cnt[size_t(me)]["probe_engine_used_nested_inside_use_of_another"] += 1;
+                            }),
+                            "nested_hook");
                 eng[s]->add(fun([](int v) { return CA{v}; }), "make_a");
                 eng[s]->add(fun([](const CB &b) { return b.v; }), "takes_b");
                 eng[s]->add(fun([](int v) { return CC{v}; }), "make_c");
@@ -337,7 +363,13 @@ namespace {
                 }
               } else if (k == "use") {
                 const int before = m.bumps->load();
+                nested_armed[size_t(a)] = op.at("nested").truthy() ? 1 : 0;
                 out = eval_show(e, "use(\"lib.chai\")");
+                nested_armed[size_t(a)] = 0;
+                if (!nested_verdict[size_t(a)].empty()) {
+                  bad(oi, "foreign-or-wrong-value", nested_verdict[size_t(a)]);
+                  nested_verdict[size_t(a)].clear();
+                }
                 const int after = m.bumps->load();
                 if (out.rfind("=", 0) != 0) {
                   bad(oi, "use-failed", out);
